@@ -122,16 +122,23 @@ theorem optSynopsis_optional (o : Opt) (h : o.required = false) :
   unfold optSynopsis
   simp [h]
 
-/-- **Commands once, without the help command.** -/
-theorem mem_helpCommands (P : Prog) (nd : Node) (c : Nat) :
-    c ∈ helpCommands P nd ↔ ∃ k, (k, c) ∈ nd.cmds ∧ (P.node c).name ≠ nd.helpName := by
+/-- **Commands once, without the help command**: the entries listed are exactly the entries of the level's
+command table — under the name each is registered and invoked with — except the help command; since the table
+has distinct keys (`AddChildCommand` refuses a duplicate) each sub-command is listed once, whatever `Self`
+later did to a command's own name. -/
+theorem mem_helpCommands (nd : Node) (k : Str) (c : Nat) :
+    (k, c) ∈ helpCommands nd ↔ (k, c) ∈ nd.cmds ∧ k ≠ nd.helpName := by
   unfold helpCommands
-  simp only [List.mem_map, List.mem_filter]
+  simp only [List.mem_filter]
   constructor
-  · rintro ⟨kv, ⟨hm, hk⟩, rfl⟩
-    exact ⟨kv.1, hm, by simpa using hk⟩
-  · rintro ⟨k, hm, hk⟩
-    exact ⟨(k, c), ⟨hm, by simpa using hk⟩, rfl⟩
+  · rintro ⟨hm, hk⟩; exact ⟨hm, by simpa using hk⟩
+  · rintro ⟨hm, hk⟩; exact ⟨hm, by simpa using hk⟩
+
+/-- a table with distinct keys lists nothing twice -/
+theorem helpCommands_nodup (nd : Node) (h : (nd.cmds.map (·.1)).Nodup) :
+    ((helpCommands nd).map (·.1)).Nodup := by
+  unfold helpCommands
+  exact (List.filter_sublist.map _).nodup h
 
 /-- **The same text three ways**: the help option, the help command (without topic) at a level, and
 `Help()` after `Parse` all evaluate `helpOutput` of that level with the default sections. -/
@@ -147,7 +154,7 @@ theorem same_text_option_and_command (s s2 : PState) (rem : List Str)
 
 /-! Non-vacuity: the demo program's root help lists each option once, `cmd` once, not `help`. -/
 example : (helpOptions Demo.prog (Demo.prog.node 0)).length = 7 ∧
-          (helpCommands Demo.prog (Demo.prog.node 0)).length = 1 ∧
+          (helpCommands (Demo.prog.node 0)).length = 1 ∧
           (requiredOpts Demo.prog (Demo.prog.node 0)) = [] := by decide
 
 end GoModel
